@@ -174,7 +174,10 @@ func c05World(t *testing.T, r *simcore.Run) any {
 				rand.Read(pl)
 			case 1, 2, 3:
 				pl = append([]byte(nil), genuine...)
-				switch tp.Intn(9, "field") {
+				switch tp.Intn(10, "field") {
+				case 9:
+					kind = "receive-decades-ahead-transmit-decades-back"
+					c05SpreadServerTimes(pl, tp)
 				case 0:
 					kind = "li=3"
 					pl[0] |= 0xc0
@@ -369,6 +372,15 @@ func c05World(t *testing.T, r *simcore.Run) any {
 
 // c05Forge builds a response the way an on-path attacker who saw the request can:
 // correct origin echo, plausible metadata and timestamps.
+// c05SpreadServerTimes moves the server's receive time 35..60 years ahead and its transmit
+// time as far back: each alone is within half an era of the client's time, together they
+// are more than 2^31 s apart (transmit before receive by any reading anchored at the client).
+func c05SpreadServerTimes(b []byte, tp *simcore.Tape) {
+	n := uint32([]int{35, 40, 60}[tp.Intn(3, "years")]) * 31557600
+	binary.BigEndian.PutUint32(b[32:], binary.BigEndian.Uint32(b[32:])+n)
+	binary.BigEndian.PutUint32(b[40:], binary.BigEndian.Uint32(b[40:])-n)
+}
+
 func c05Forge(req []byte) []byte {
 	q, _ := decodeNTP(req)
 	var p ntp.Packet
